@@ -110,7 +110,7 @@ def check_candidates(rng, counters, classes, n=40):
     vio = []
     for _ in range(n):
         level = rng.choice([1, 2, 3, 4])
-        kind = rng.choice(['iso-file', 'iso-file', 'iso-dir', 'joliet', 'udf', 'rr', 'depth', 'link', 'symlink', 'versions', 'reloc-same', 'reloc-rr-dup'])
+        kind = rng.choice(['iso-file', 'iso-file', 'iso-dir', 'joliet', 'udf', 'rr', 'depth', 'link', 'symlink', 'versions', 'reloc-same', 'reloc-rr-dup', 'special-dir-dup'])
         if rng.random() < 0.02:
             kind = 'bigdup'
         xa = rng.random() < 0.35
@@ -168,6 +168,36 @@ def check_candidates(rng, counters, classes, n=40):
             op['_pre'] = pre
             ident = op['iso_path']
             exp = True
+        elif kind == 'special-dir-dup':
+            # an existing name added again inside a directory that carries the name of the Rock Ridge
+            # relocation directory: the user's own /RR_MOVED, or the relocation directory itself
+            level = rng.choice([1, 2, 3])
+            cfg = Cfg(level=level, rr=rng.choice(['1.09', '1.12']), xa=xa)
+            pre = []
+            if rng.random() < 0.5:
+                pre.append({'op': 'add_directory', 'iso_path': '/RR_MOVED', 'rr_name': rng.choice(['rr_moved', 'mine'])})
+            else:
+                p_ = ''
+                for d in range(8):
+                    p_ += '/D%d' % d
+                    pre.append({'op': 'add_directory', 'iso_path': p_, 'rr_name': 'd%d' % d})
+            isdir = rng.random() < 0.3
+            first = {'op': 'add_directory', 'iso_path': '/RR_MOVED/FOO', 'rr_name': 'foo'} if isdir else {'op': 'add_fp', 'cid': 5, 'length': 3, 'iso_path': '/RR_MOVED/FOO.;1', 'rr_name': 'foo'}
+            pre.append(first)
+            if rng.random() < 0.3:
+                pre.append({'op': 'reopen'})
+            ident = first['iso_path']
+            how = rng.choice(['add_fp', 'add_directory', 'add_hard_link', 'add_symlink'])
+            if how == 'add_fp':
+                op = {'op': 'add_fp', 'cid': 1, 'length': 4, 'iso_path': ident, 'rr_name': 'foo2', '_pre': pre}
+            elif how == 'add_directory':
+                op = {'op': 'add_directory', 'iso_path': ident, 'rr_name': 'foo2', '_pre': pre}
+            elif how == 'add_symlink':
+                op = {'op': 'add_symlink', 'symlink_path': ident, 'rr_symlink_name': 'foo2', 'rr_path': 't', '_pre': pre}
+            else:
+                pre.append({'op': 'add_fp', 'cid': 2, 'length': 3, 'iso_path': '/SRC.;1', 'rr_name': 'src'})
+                op = {'op': 'add_hard_link', 'old': ('iso', '/SRC.;1'), 'new': ('iso', ident), 'rr_name': 'foo2', '_pre': pre}
+            exp = 'duplicate'
         elif kind == 'reloc-rr-dup':
             # the Rock Ridge name of a relocated directory is taken in its logical parent (where
             # its placeholder lives), not only in the relocation directory
